@@ -543,6 +543,12 @@ def DeclSeq (F : FloatOps) (pre : List Pat) (rest : Option (Option Name)) (post 
     DeclAll F pre a β₁ ∧ DeclAll F post b β₂ ∧
     β = β₁ ++ restWrites rest (sl a.length (a.length + mid.length)) ++ β₂
 
+/-- declarative reading of one `or` alternative: a single pattern against the subject, or (multi-value
+match) one pattern per subject value -/
+def DeclAlt (F : FloatOps) : Alt → Val → Writes → Prop
+  | .one p, v, β => Decl F p v β
+  | .many ps, v, β => ∃ vs, v = .tuple vs ∧ DeclAll F ps vs β
+
 /-! ### variables of a pattern -/
 
 def entVars : List Ent → List Name
@@ -617,6 +623,13 @@ def isSeqNonEmpty : Pat → Bool
   | .seq pre rest post => !(pre.isEmpty && rest.isNone && post.isEmpty)
   | _ => false
 end
+
+/-- what the compiler guarantees about an alternative: patterns are well-formed, and a multi-value
+alternative has one pattern per subject value (`UnexpectedMatchPatternCount` otherwise) and at least
+one -/
+def WfAlt : Alt → Val → Prop
+  | .one p, _ => wf p = true
+  | .many ps, v => wfL ps = true ∧ ps ≠ [] ∧ ∃ vs, v = .tuple vs ∧ vs.length = ps.length
 
 end Match
 end KotoVerif
